@@ -224,6 +224,11 @@ func init() {
 		forms := []byte{0, 0x4c, 0x4d, 0x4e} // 0 = direct
 		lens := append([]int{0}, c13PushClasses...)
 		lens = append(lens, 2, 74, 77, 254, 257, 65534, 65537)
+		for l := 3; l <= 80; l++ { // every direct-push opcode has its own table entry in the parser: all of 0x01..0x4b, and the first PUSHDATA1 lengths
+			if l != 74 && l != 75 && l != 76 && l != 77 {
+				lens = append(lens, l)
+			}
+		}
 		for _, l := range lens {
 			for _, f := range forms {
 				for ctx := 0; ctx < 3; ctx++ {
